@@ -1,0 +1,53 @@
+// Verification hooks for the connection caps (cfg(feature = "verif") only, adds code only):
+// public names for `ConnectionLimits`, `PeerState` and the records it stores, so that an external
+// harness can drive them directly, and constructors for the two ways the manager builds a
+// `ConnectionRecord`.
+
+pub use super::{
+    limits::{verif_log as limits_log, ConnectionLimits},
+    peer_state::{ConnectionRecord, PeerState, SecondaryOrDialing, StateDialResult},
+    verif::verif_set_ext_failures,
+};
+
+use crate::{transport::Endpoint, types::ConnectionId, PeerId};
+
+use multiaddr::Multiaddr;
+
+/// `ConnectionRecord::new(peer, address, id)` (the dial paths of the manager).
+pub fn record_new(peer: PeerId, address: Multiaddr, connection_id: usize) -> ConnectionRecord {
+    ConnectionRecord::new(peer, address, ConnectionId::from(connection_id))
+}
+
+/// `ConnectionRecord::from_endpoint(peer, &endpoint)` (`on_connection_established`).
+pub fn record_from_endpoint(
+    peer: PeerId,
+    address: Multiaddr,
+    connection_id: usize,
+    listener: bool,
+) -> ConnectionRecord {
+    let connection_id = ConnectionId::from(connection_id);
+    let endpoint = if listener {
+        Endpoint::listener(address, connection_id)
+    } else {
+        Endpoint::dialer(address, connection_id)
+    };
+    ConnectionRecord::from_endpoint(peer, &endpoint)
+}
+
+/// A record with exactly these fields (no peer id is appended).
+pub fn record_raw(address: Multiaddr, connection_id: usize) -> ConnectionRecord {
+    ConnectionRecord {
+        address,
+        connection_id: ConnectionId::from(connection_id),
+    }
+}
+
+/// The connection id of a record.
+pub fn record_id(record: &ConnectionRecord) -> usize {
+    record.connection_id.verif_as_usize()
+}
+
+/// A connection id from its number.
+pub fn connection_id(id: usize) -> ConnectionId {
+    ConnectionId::from(id)
+}
